@@ -452,6 +452,7 @@ func init() {
 		Run: func(c *Case) {
 			if c.Idx == 0 {
 				c19Enumerated(c)
+				round8Hand(c, "C19")
 			} else {
 				c19Random(c)
 			}
